@@ -14,12 +14,18 @@ TOL = 1e-9
 class WatchPeer(ScriptPeer):
     """Evaluates the state invariant at every transmission and connect (i.e. inside running requests)."""
 
+    nb = None       # a second protocol object whose transport is not the business of the object under test
+
+    def _mine(self):
+        other = getattr(self.nb, '_transport', None)
+        return sum(1 for t in self.kern.transports if not t.is_closing() and t is not other)
+
     def on_send(self, sock, data):
-        self.watch.append(('tx', sum(1 for t in self.kern.transports if not t.is_closing()), len(self.kern.socks)))
+        self.watch.append(('tx', self._mine(), len(self.kern.socks)))
         return super().on_send(sock, data)
 
     def on_connect(self):
-        self.watch.append(('connect', sum(1 for t in self.kern.transports if not t.is_closing()), len(self.kern.socks)))
+        self.watch.append(('connect', self._mine(), len(self.kern.socks)))
         return super().on_connect()
 
 
@@ -53,7 +59,8 @@ def ops_for(cfg):
 
 
 def n_open(s):
-    return sum(1 for t in s.kern.transports if not t.is_closing())
+    other = getattr(getattr(s.peer, 'nb', None), '_transport', None)
+    return sum(1 for t in s.kern.transports if not t.is_closing() and t is not other)
 
 
 def leaked_sockets(s):
@@ -63,6 +70,9 @@ def leaked_sockets(s):
     if len(s.kern.socks) - n_open(s) > 0:
         gc.collect()
     pk = s.parked_fds() if hasattr(s, 'parked_fds') else set()
+    other = getattr(getattr(s.peer, 'nb', None), '_transport', None)
+    if other is not None and not other.is_closing() and getattr(other, '_sock', None) is not None:
+        pk = set(pk) | {other._sock.fileno()}
     return len([fd for fd in s.kern.socks if fd not in pk]) - n_open(s)
 
 
@@ -71,6 +81,21 @@ def run_history(cfg, hist, final=True):
     s.peer.watch = []
     O = ops_for(cfg)
     vio = []
+    nb = None
+    if cfg.get('neighbour'):
+        # a second protocol object for the same inverter (keep-alive on) lives in the process: it is used once at the start
+        # and FIRST after every change of the event loop - the object under test must still notice the change itself
+        from ..proto import make_protocol, _exec
+        nb = make_protocol(cfg['transport'], cfg['T'], cfg['R'], True)
+        s.peer.nb = nb
+
+        def nb_request():
+            saved = s.peer.forced
+            s.peer.forced = ['valid']
+            s.loop.run(_exec(nb.read_command(0x7000, 2), nb))
+            s.peer.forced = saved
+            s.peer.watch.clear()
+        nb_request()
     last_ok_fd = None
     log_mark = 0
     for i, name in enumerate(hist):
@@ -90,6 +115,8 @@ def run_history(cfg, hist, final=True):
         elif a == 'newloop':
             s.newloop()
             last_ok_fd = None
+            if nb is not None:
+                nb_request()
         elif a == 'newloop-open':
             s.newloop_open()
             last_ok_fd = None
@@ -200,7 +227,7 @@ def job(j):
         hist, cause = lst[0]
         mn = shrink(cfg, hist, clause)
         v2 = run_history(cfg, mn)[0]
-        key = f"{clause}/{cfg['transport']}/ka={int(cfg['ka'])}/{'+'.join(sorted(set(mn))) or 'fresh'}"
+        key = f"{clause}/{cfg['transport']}/ka={int(cfg['ka'])}/{'+'.join(sorted(set(mn))) or 'fresh'}" + ('/second-object-used-first-in-each-loop' if cfg.get('neighbour') else '')
         if not any(c == clause for c, _ in v2):
             key = f"{clause}/{cfg['transport']}/ka={int(cfg['ka'])}/order-dependent"
             v2 = [(clause, f'{cause}; ' + 'failed during exploration but not on a fresh replay: the outcome depends on earlier executions in the same process (state outside the objects under test leaks between executions)')]
@@ -274,6 +301,7 @@ def run(tier, seed, rep):
     depth = 4 if tier == 'thorough' else 3
     jobs = [(dict(transport=tr, ka=ka, T=1, R=R), depth) for tr in ('udp', 'tcp') for ka in (False, True)
             for R in ((0, 1, 2) if tier == 'thorough' else (1,))]
+    jobs += [(dict(transport=tr, ka=True, T=1, R=1, neighbour=True), 2 if tier != 'thorough' else 3) for tr in ('udp', 'tcp')]
     k = seed % len(jobs)
     jobs = jobs[k:] + jobs[:k]
     total = Stats()
